@@ -62,7 +62,7 @@ def exhaustive_cases(ctx, limit):
 
 def run(ctx):
     g = qgen.Gen(ctx.rng)
-    n = 4000 if ctx.tier == 'quick' else 120000
+    n = 4000 if ctx.tier == 'quick' else 500000
     cases = [gen_case(ctx, g) for _ in range(n)]
     cases += exhaustive_cases(ctx, 2000 if ctx.tier == 'quick' else None)
     ctx.rule = ('UPDATE [SET] lists of 1-3 assignments (targets aN / a[N], also beyond the record: bad-field errors at every position) with right-hand sides over the original record, '
